@@ -224,18 +224,23 @@ def run(chk, rules=None, as_prop=None):
     from ..tablesim import check_subquery_scenarios
 
     pmod = repo.mod("pipe.pipeable")
+    g6_decided = False
     try:
         res_c = check_subquery_scenarios(repo)
         for desc, ok_, detail in res_c:
             chk.ob("G6v", pmod, pmod.func("check_subquery"), f"check_subquery: {desc}", ok_, detail)
         chk.floor("G6v", "check_subquery scenarios", len(res_c), 5)
+        g6_decided = True
     except (AnalysisError, SymbolicBranch) as e:
         chk.undecided.append(f"G6v: check_subquery could not be interpreted ({str(e)[:140]})")
     except PyRaise as p_:
         chk.ob("G6v", pmod, pmod.func("check_subquery"), "check_subquery on stub tables", False, f"setting up the stub pipeline raises {p_.name}: {p_.msg}")
 
-    # ---- G6 check_subquery
-    _check_subquery(chk, sym)
+    # ---- G6 / G6r: the shape of check_subquery, only read when the scenarios above could not be interpreted
+    if g6_decided:
+        chk.ok("G6", pmod, pmod.func("check_subquery"), "check_subquery: decided by G6v on the interpreted function")
+    else:
+        _check_subquery(chk, sym)
 
     # ---- G7
     sql = repo.mod("backend.sql")
